@@ -216,7 +216,7 @@ PROPS = {
                      "when the history's own update fails only 'history called once, first' is required (statement silent on the time getter then)"],
     ),
     "C18": dict(
-        quick_scale=4, thorough_scale=20, run=native_both_profiles, level=EXPL, technique="exact i128 integer oracle; exact f64 rational references for the conversions with the statement's own bounds; non-decreasing chains for monotonicity; differential check of the mixed operators against Quantity operators on Quantity::from-converted operands with panic capture on both sides",
+        quick_scale=4, thorough_scale=6, run=native_both_profiles, level=EXPL, technique="exact i128 integer oracle; exact f64 rational references for the conversions with the statement's own bounds; non-decreasing chains for monotonicity; differential check of the mixed operators against Quantity operators on Quantity::from-converted operands with panic capture on both sides",
         rule="seeded generators: i64 operands over bit-lengths 0..62 x sign (plus values next to k*2^24, f32 midpoints, 2^k, whole seconds) with operand pairs built so the i64 result exists; f32 seconds |x| < 9e9 stratified by exponent; 49 grid units x 27 mixed operator cells; exhaustive: |ns| <= 2^16 and +-(2^k+{-1,0,1}) for Time->Quantity, 49 units x try_from, 49 units x 27 mixed cells; distinct = (sub-check or operator group, magnitude stratum and sign of each operand, unit)",
         assumptions=["debug build with dimension checking and overflow checks on; overflow and division by zero are outside the property",
                      "'within 2 ulps' accepts either reading (distance to the correctly rounded f32, or real error); truncation and rounding both accepted for Quantity->Time",
